@@ -9,6 +9,7 @@ import (
 	"os"
 	"path/filepath"
 	"strconv"
+	"strings"
 
 	"helm.sh/helm/v4/pkg/action"
 	chartutil "helm.sh/helm/v4/pkg/chart/v2/util"
@@ -45,6 +46,23 @@ func cliArgs(s Step, chartDir string) []string {
 			a = add(a, "noHooks", "--no-hooks")
 			a = add(a, "skipCRDs", "--skip-crds")
 			a = add(a, "createNamespace", "--create-namespace")
+			if o := flagS(f, "tplDry"); o != "" {
+				a = append(a, "--dry-run="+o) // whatever the value, template stays a client-only dry run
+			}
+			return a
+		}
+		if t := flagS(f, "tpl"); t != "" && (flagB(f, "dryRun") || flagS(f, "dryRunOption") != "") {
+			// a server-side dry run spelled "helm template --validate [--dry-run=...]"
+			a := []string{"template", RelName, chartDir, "--namespace", RelNS, "--validate"}
+			if i := strings.Index(t, "-"); i >= 0 {
+				a = append(a, "--dry-run="+t[i+1:])
+			}
+			a = add(a, "noHooks", "--no-hooks")
+			a = add(a, "skipCRDs", "--skip-crds")
+			a = add(a, "createNamespace", "--create-namespace")
+			a = add(a, "takeOwnership", "--take-ownership")
+			a = add(a, "atomic", "--atomic")
+			a = add(a, "force", "--force")
 			return a
 		}
 		a := append([]string{"install", RelName, chartDir}, common...)
